@@ -30,7 +30,8 @@ def bounded_time_shift(pb, interp, rng, tier):
                 else:
                     want[: N + sv] = x[-sv:]
                 err = np.max(np.abs(np.asarray(y.data) - want)) / np.max(np.abs(x))
-                if not (err <= 2e-5):
+                # single-precision data carries ~1e-7 per operation; double-precision data must keep double accuracy
+                if not (err <= (2e-5 if np.dtype(dt).itemsize <= 8 and np.dtype(dt).kind == "c" or np.dtype(dt) == np.float32 else 1e-10)):
                     fails.append(_fail("time_shift", "integer-shift-moves-samples", f"N={N},{np.dtype(dt).name},shift={s}", f"relative error {err:.2e}"))
                 if y.data.dtype != x.dtype:
                     fails.append(_fail("time_shift", "dtype-kept", f"N={N},{np.dtype(dt).name}", str(y.data.dtype)))
@@ -58,8 +59,26 @@ def bounded_freq_shift(pb, interp, rng, tier):
                     W[: N + k] = X[-k:]
                 want = np.fft.ifft(np.fft.ifftshift(W, axes=0), axis=0)
                 err = np.max(np.abs(np.asarray(y.data) - want)) / np.max(np.abs(x))
-                if not (err <= 2e-5):
+                if not (err <= (2e-5 if dt is np.complex64 else 1e-10)):
                     fails.append(_fail("freq_shift", "whole-bin-shift-moves-spectrum", f"N={N},{np.dtype(dt).name},bins={k}", f"relative error {err:.2e}"))
                 if y.data.dtype != x.dtype:
                     fails.append(_fail("freq_shift", "dtype-kept", f"N={N},{np.dtype(dt).name}", str(y.data.dtype)))
-    return {"evaluations": ev, "distinct_nontrivial": ev, "failures": fails[:10], "samples": [{"N": sizes[0], "bins": "N//3, -(N//7), 1"}]}
+    # every small length, every whole-bin shift with exactly representable operands (sample_rate = N Hz,
+    # shift = k Hz): exactly a circular move, only the wrapped-into bins zeroed
+    for N in range(1, 25 if tier == "quick" else 65):
+        x = np.zeros((N, 1), dtype=np.complex128)
+        x[0, 0] = 1.0                                   # impulse: flat spectrum of ones
+        z = pb.BasebandSignal(x, sample_rate=N * u.Hz, center_freq=1 * u.kHz)
+        for k in range(-N - 1, N + 2):
+            ev += 1
+            y = pb.freq_shift(z, k * u.Hz)
+            Y = np.fft.fftshift(np.fft.fft(np.asarray(y.data)[:, 0]))
+            W = np.zeros(N)
+            if 0 <= k < N:
+                W[k:] = 1
+            elif -N < k < 0:
+                W[: N + k] = 1
+            if not np.allclose(Y, W, rtol=0, atol=1e-9):
+                fails.append(_fail("freq_shift", "whole-bin-shift-exact-small-N", f"N={N},sample_rate={N} Hz,shift={k} Hz", f"spectrum {np.round(np.abs(Y), 3).tolist()} expected {W.tolist()}"))
+                break
+    return {"evaluations": ev, "distinct_nontrivial": ev, "failures": fails[:10], "samples": [{"N": sizes[0], "bins": "N//3, -(N//7), 1"}, {"small": "N < 25, every whole-bin shift |k| <= N+1"}]}
